@@ -686,7 +686,7 @@ func runC21(tier, replay string) {
 	if v := os.Getenv("VERIF_CASES"); v != "" {
 		fmt.Sscanf(v, "%d", &n)
 	}
-	par := parallelism(r, 4, 8)
+	par := parallelism(r, 6, 8)
 	rng := r.Rand()
 	specs := make([]c21Spec, n)
 	batches := make([]batchFile, par)
